@@ -412,6 +412,8 @@ func parse_regexp_groups(regexp_token *Token, regexp string, index int) (AstLite
 	if regexp[next_index] != ')' {
 		return nil, next_index, NewParseError(regexp_token, "Expected end parenthesis")
 	}
+	verifYield("regexp.group.before")
 	capture_group_number += 1
+	verifYield("regexp.group.after")
 	return &AstSubExpr{[]AstExpression{&AstDec{fmt.Sprintf("_%d", capture_group_number), &AstSubExpr{subexpr}}}}, next_index + 1, nil
 }
